@@ -207,6 +207,35 @@ func mergeOriginal(orig, rules, sws []spec.Op) []spec.Op {
 	return out
 }
 
+// helperOverlap: a convenience helper together with hand-written rules on the same elements
+// and attributes, so that "rules accumulate rather than replace one another" is exercised on
+// the helpers' own tables in both call orders.
+func helperOverlap(r *rand.Rand) []spec.Op {
+	re := func() string { return gen.ValLib[r.Intn(6)].Re }
+	at := func(els []string, attrs ...string) spec.Op {
+		return spec.Op{K: spec.KAllowAttrs, Attrs: attrs, Re: re(), Scope: "els", Names: els}
+	}
+	switch r.Intn(8) {
+	case 0:
+		return []spec.Op{{K: spec.KLists}, at([]string{"li", "ol", "ul"}, "type", "value", "class")}
+	case 1:
+		return []spec.Op{{K: spec.KTables}, at([]string{"td", "th", "table", "col"}, "align", "width", "scope", "x"), {K: spec.KAllowNoAttrs, Scope: "els", Names: []string{"td"}}}
+	case 2:
+		return []spec.Op{{K: spec.KImages}, at([]string{"img"}, "alt", "width", "align", "title"), {K: spec.KSchemes, Names: []string{"ftp"}}}
+	case 3:
+		return []spec.Op{{K: spec.KStdAttrs}, {K: spec.KAllowAttrs, Attrs: []string{"id", "title", "lang", "dir"}, Re: re(), Scope: "global"}}
+	case 4:
+		return []spec.Op{{K: spec.KStyling}, {K: spec.KAllowAttrs, Attrs: []string{"class"}, Re: re(), Scope: "global"}, at([]string{"span", "p"}, "class")}
+	case 5:
+		return []spec.Op{{K: spec.KIFrames, Ints: []int{2, 6}}, at([]string{"iframe"}, "sandbox", "src"), {K: spec.KSandbox, Ints: []int{10}}}
+	case 6:
+		return []spec.Op{{K: spec.KStdURLs}, {K: spec.KSchemes, Names: []string{"ftp", "HTTP"}}, {K: spec.KSchemeCustom, Names: []string{"https"}, Check: "host-example"}, {K: spec.KAllowAttrs, Attrs: []string{"href"}, Scope: "els", Names: []string{"a"}}}
+	default:
+		return []spec.Op{{K: spec.KDataURIImages}, {K: spec.KSchemeCustom, Names: []string{"data"}, Check: "never"}, {K: spec.KAllowAttrs, Attrs: []string{"src"}, Scope: "els", Names: []string{"img"}},
+			{K: spec.KSkip, Names: []string{"div", "title"}}, {K: spec.KKeep, Names: []string{"title", "iframe"}}}
+	}
+}
+
 func randCase(r *rand.Rand) spec.Casing {
 	mode := r.Intn(3)
 	return func(s string) string {
@@ -283,6 +312,9 @@ func c17Work(ctx *core.Ctx, part string) {
 	ctx.Run("histories", nSpec, func(cs *core.Case) {
 		r := cs.R
 		ops := spec.RandomOps(r, spec.GenOpts{Styles: true})
+		if r.Intn(3) == 0 {
+			ops = append(ops, helperOverlap(r)...)
+		}
 		envA := NewEnv(ops)
 		probes := c17Probes(r, envA, nProbe)
 		want := make([]string, len(probes))
